@@ -12,13 +12,14 @@ pub mod ref_annexb;
 pub mod ref_av1;
 pub mod bx;
 pub mod fin;
+pub mod native_mp4;
 pub mod apistep;
 
-#[cfg(all(kani, feature = "c01"))]
+#[cfg(all(kani, any(feature = "c01", feature = "c02")))]
 pub mod p_c01;
 #[cfg(all(kani, feature = "c02"))]
 pub mod p_c02;
-#[cfg(all(kani, feature = "c03"))]
+#[cfg(all(kani, any(feature = "c03", feature = "c08")))]
 pub mod p_c03;
 #[cfg(all(kani, any(feature = "c04", feature = "c05", feature = "c12")))]
 pub mod p_c04;
